@@ -63,7 +63,7 @@ func checkC07(c *vkit.Ctx) {
 		return
 	}
 	lab := NewLab(p, "")
-	n := c.N(400, 12000)
+	n := c.N(1500, 100000)
 	for i := 0; i < n; i++ {
 		if !c.Mine(i) {
 			continue
